@@ -111,7 +111,7 @@ def make_metadata(rows, cols, *, bands=None, disp=(-1, 1)) -> xr.Dataset:
     return ds
 
 
-SUFFIX_STYLES = ["{n}", "v{n}.1", "a.b.{n}", "x{n}"]
+SUFFIX_STYLES = ["{n}", "v{n}.1", "a.b.{n}", "x{n}", "pre_multiscale{n}", "validation{n}"]   # (a suffix may spell another kind)
 
 
 def step_names(kinds, first_suffix=False, suffix_at=(), style=0):
